@@ -11,7 +11,7 @@
     ([np.savetxt] text); [os.replace] is atomic; a file opened for reading is an immutable
     snapshot (the final name is only ever (re)bound by [os.replace], never written in place);
     [mkstemp] names are unique.  No proofs in this file. *)
-From Coq Require Import List Arith Bool.
+From Coq Require Import List Arith Bool ZArith Uint63.
 Import ListNotations.
 
 Section Cache.
@@ -169,4 +169,30 @@ Definition crun (len : nat) (g0 : option nat) (tr : list (action))
             (init unit nat (match g0 with None => None | Some k => Some (firstn k (cser len)) end)) tr with
   | None => None
   | Some s => Some (observe len s)
+  end.
+
+(** the same with primitive 63-bit integers at the interface (their literals are parsed
+    natively; unary or binary number notations are slow to elaborate by the thousand):
+    actions are [(code, p, k)] with code 0 = Spawn, 1 = Step p k, 2 = Kill p, 3 = Raise p,
+    anything else = Clear *)
+Definition i2n (i : int) : nat := Z.to_nat (Uint63.to_Z i).
+Definition n2i (n : nat) : int := Uint63.of_Z (Z.of_nat n).
+
+Definition actI (a : int * int * int) : action :=
+  let '(c, p, k) := a in
+  match i2n c with
+  | 0 => Spawn
+  | 1 => Step (i2n p) (i2n k)
+  | 2 => Kill (i2n p)
+  | 3 => Raise (i2n p)
+  | _ => Clear
+  end.
+
+Definition crunI (len : int) (g0 : option int) (tr : list (int * int * int))
+  : option (option (int * bool) * list (option int) * list int) :=
+  match crun (i2n len) (option_map i2n g0) (map actI tr) with
+  | None => None
+  | Some (f, ts, ps) =>
+      Some (option_map (fun x : nat * bool => (n2i (fst x), snd x)) f,
+            map (option_map n2i) ts, map n2i ps)
   end.
